@@ -186,6 +186,17 @@ func bessImageCheck(s *sessSys) []c03Viol {
 					bad("pdr-qer", "PDR %d of session #%d carries QER %d which is not in its list %v", l.p.ID, l.s.Idx, e.Qer, l.p.QERs)
 				} else if anyApp && appQ[fmt.Sprintf("%d/%d", l.s.UPSEID, e.Qer)] == 0 {
 					bad("pdr-qer-not-app", "PDR %d of session #%d carries QER %d which is not an application-level one although the rule has one", l.p.ID, l.s.Idx, e.Qer)
+				} else if anyApp {
+					// the FIRST application QER: the first identifier of the list as the control plane sent it that is installed
+					// as an application QER (which QER is the session-wide one is read from the tables, not prescribed)
+					for _, q := range l.p.QERs {
+						if appQ[fmt.Sprintf("%d/%d", l.s.UPSEID, q)] > 0 {
+							if uint64(q) != e.Qer {
+								bad("pdr-qer-not-first", "PDR %d of session #%d carries QER %d, the first application QER of its list %v is %d", l.p.ID, l.s.Idx, e.Qer, l.p.QERs, q)
+							}
+							break
+						}
+					}
 				}
 			}
 		}
